@@ -31,6 +31,10 @@ def id : Node → Nat
 def parent : Node → Option Nat
   | elem _ p .. => p
   | text _ p _ => p
+/-- `root._()->parent = NULL` -/
+def clearParent : Node → Node
+  | elem i _ t a c => elem i none t a c
+  | text i _ t => text i none t
 /-- `e._()->parent = p` -/
 def setParent (p : Nat) : Node → Node
   | elem i _ t a c => elem i (some p) t a c
@@ -330,12 +334,14 @@ def step (guard : Bool) (c : Cfg) (ch : UInt8) : Step :=
       if c.angle == 0 then .cont { c1 with st := .free, b := [] } else .cont { c1 with angle := c.angle - 1 }
     else .cont { c1 with b := c.b ++ [ch] }
 
-/-- `return (elems.top().numChildren() == 1) ? elems.top().child(0) : Xml();` -/
+/-- `if (elems.top().numChildren() != 1) return Xml(); Xml root = elems.top().child(0);
+    root._()->parent = NULL; return root;`  (commit 5247de7: the element the result was attached to —
+    the anonymous root, or an unclosed element — is destroyed on return) -/
 def finish (c : Cfg) : Result :=
   match c.stack with
   | [] => .fault
   | f :: _ => match f.children with
-    | [n] => .node n
+    | [n] => .node n.clearParent
     | _ => .null
 
 def run (guard : Bool) (c : Cfg) : Bytes → Result
